@@ -30,6 +30,22 @@ seeded/C06-m1 (per-graph cycle check inside the re-linking loop of Graph.sort) a
 each graph's initializers right after validating that graph).  Not modelled in Coq: sort atomicity is C12_cycle_atomic,
 rename_values all-or-nothing is C15_rename_all_or_nothing (other engineers' models).
 
+ROUND 2 (three more seeded changes escaped, all now caught with concrete replays; seeds 0-3 clean):
+  * snapshot: every value now also reports what is reachable through const_value (tensor identity, name, doc string,
+    metadata, dtype, shape, bytes); ~40 % of generated values are backed by a tensor  -> seeded/C06-r2m1 (Value.name
+    renames the tensor before validating) is caught at a rejected VSetName;
+  * why r2m2/r2m3 escaped although both ops are in the Coq model and the sites are repaired in current_cfg: the generator
+    produced "reference node not in this graph" only under the 4 % site-aimed branch and only when no foreign node
+    existed, and "graph output WITH consumers + foreign replacement" only by chance; nothing was wrong with the model,
+    the tie simply never executed such a call.  Now: the malformed stream picks an outside reference node with graph-less
+    unnamed new nodes for insert_before/insert_after/append/prepend, prefers graph outputs that have consumers for
+    rejected replace_all_uses_with, and gen_rejections (80 histories per quick run, model ops, compared inside Coq)
+    builds a two-graph scene and ONE call designed to be rejected with the offending element at every position
+    (insert-ref, insert-foreign, extend-foreign, io-extend/insert/setitem, rau, rename, init-set, remove-safe,
+    resize-outputs), chosen so that a partial mutation is visible  -> seeded/C06-r2m2 (GInsertBefore) and C06-r2m3
+    (VReplaceAllUses) are caught by the oracle and by the correspondence (the repaired model returns the input heap).
+  * harness artifact removed: the executor used to attach a tensor to the value before register_initializer.
+
 READING.  "every observable property of every reachable IR object" = the accessors of C01's observe_at list for every
 object the history ever created (a superset of the reachable ones), plus object counts.  Hidden state (ref counters,
 name-authority sets) is part of the model-side theorem only; a rejected call that corrupts only hidden state is still
